@@ -1,4 +1,6 @@
 mod utils;
+#[cfg(ast_grep_verif)]
+pub mod verif;
 
 use dashmap::DashMap;
 use serde_json::Value;
@@ -269,6 +271,8 @@ impl<L: LSPLang> Backend<L> {
       .log_message(MessageType::LOG, "Publishing init diagnostics.")
       .await;
     self.publish_diagnostics(text_doc.uri, &versioned).await;
+    #[cfg(ast_grep_verif)]
+    verif::probe_lock(&self.map, &uri, "on_open");
     self.map.insert(uri.to_owned(), versioned); // don't lock dashmap
     Some(())
   }
@@ -283,6 +287,8 @@ impl<L: LSPLang> Backend<L> {
       .await;
     let lang = Self::infer_lang_from_uri(&text_doc.uri)?;
     let root = AstGrep::new(text, lang);
+    #[cfg(ast_grep_verif)]
+    verif::probe_lock(&self.map, uri, "on_change");
     let mut versioned = self.map.get_mut(uri)?;
     // skip old version update
     if versioned.version > text_doc.version {
@@ -300,6 +306,8 @@ impl<L: LSPLang> Backend<L> {
     Some(())
   }
   async fn on_close(&self, params: DidCloseTextDocumentParams) {
+    #[cfg(ast_grep_verif)]
+    verif::probe_lock(&self.map, params.text_document.uri.as_str(), "on_close");
     self.map.remove(params.text_document.uri.as_str());
   }
 
@@ -311,6 +319,8 @@ impl<L: LSPLang> Backend<L> {
     L: ast_grep_core::Language + std::cmp::Eq,
   {
     let uri = text_document.uri;
+    #[cfg(ast_grep_verif)]
+    verif::probe_lock(&self.map, uri.as_str(), "compute_all_fixes");
     let versioned = self
       .map
       .get(uri.as_str())
